@@ -331,7 +331,15 @@ func (g *generator) walkRef(schema *schemaparser.Schema) (ast.Type, error) {
 	}
 
 	// TODO: get the correct package for the referred type
-	return ast.NewRef(g.schema.Package, referredKindName, ast.Default(unwrapJSONNumber(schema.Default))), nil
+	ref := ast.NewRef(g.schema.Package, referredKindName, ast.Default(unwrapJSONNumber(schema.Default)))
+
+	// an enum is declared with the type of its members, whatever its nullability: what
+	// refers to an enum that accepts null carries that nullability, as it does for an enum written in place
+	if referred, found := g.schema.LocateObject(referredKindName); found && referred.Type.IsEnum() && referred.Type.Nullable {
+		ref.Nullable = true
+	}
+
+	return ref, nil
 }
 
 func (g *generator) walkString(schema *schemaparser.Schema) (ast.Type, error) {
